@@ -145,8 +145,8 @@ func (h *Handler) handlePropfind(w http.ResponseWriter, r *http.Request) error {
 		}
 		propfind.AllProp = &struct{}{}
 	}
-	if propfind.PropName == nil && propfind.AllProp == nil && propfind.Prop == nil {
-		return HTTPErrorf(http.StatusBadRequest, "webdav: request missing propname, allprop or prop element")
+	if err := checkPropFind(&propfind); err != nil {
+		return err
 	}
 
 	depth := DepthInfinity
@@ -174,7 +174,33 @@ func PropFindValue(value interface{}) PropFindFunc {
 	}
 }
 
+// checkPropFind makes sure the request contains exactly one of propname,
+// allprop and prop, as required by RFC 4918 section 14.20.
+func checkPropFind(propfind *PropFind) error {
+	n := 0
+	if propfind.PropName != nil {
+		n++
+	}
+	if propfind.AllProp != nil {
+		n++
+	}
+	if propfind.Prop != nil {
+		n++
+	}
+	switch {
+	case n == 0:
+		return HTTPErrorf(http.StatusBadRequest, "webdav: request missing propname, allprop or prop element")
+	case n > 1:
+		return HTTPErrorf(http.StatusBadRequest, "webdav: propname, allprop and prop are mutually exclusive")
+	}
+	return nil
+}
+
 func NewPropFindResponse(path string, propfind *PropFind, props map[xml.Name]PropFindFunc) (*Response, error) {
+	if err := checkPropFind(propfind); err != nil {
+		return nil, err
+	}
+
 	resp := &Response{Hrefs: []Href{Href{Path: path}}}
 
 	if _, ok := props[ResourceTypeName]; !ok {
